@@ -646,6 +646,29 @@ def enum_init_cases(rng, count):
     return out
 
 
+# --- constant / and % : every pair of operand kinds and literal values (zero, -1, minimum) --------------------
+def const_division_cases():
+    """(left kind, value) x (right kind, value) x {/, %} in a function body and in an enum initialiser: the reducer
+    (front/constred.c, front/enumred.c) must fold, or diagnose `division by zero` / a type error -- never fault."""
+    lits = {"int": ["0", "1", "7", "-1", "(0-2147483647-1)"],
+            "long": ["0L", "1L", "7L", "-1L", "(0L-9223372036854775807L-1L)"],
+            "enum": ["E::A", "E::B", "E::C"],
+            "float": ["0.0", "1.5"], "double": ["0.0d", "2.5d"], "char": ["'a'"], "bool": ["false", "true"]}
+    hosts = (("body", "func main() -> int { let z = %s %s %s; 0 }\n"), ("enum-init", "enum G { P = %s %s %s, Q }\nfunc main() -> int { 0 }\n"))
+    out = []
+    for ka, la in lits.items():
+        for kb, lb in lits.items():
+            for ia, a in enumerate(la):
+                for ib, b in enumerate(lb):
+                    for on, op in (("div", "/"), ("mod", "%")):
+                        for hn, host in hosts:
+                            if hn == "enum-init" and (ka in ("float", "double") or kb in ("float", "double")):
+                                continue
+                            src = "enum E { A, B, C }\n" + host % (a, op, b)
+                            out.append(("%s.%s%d-%s%d.%s" % (on, ka, ia, kb, ib, hn), src.encode()))
+    return out
+
+
 # --- raw bytes ------------------------------------------------------------------------------------
 def raw_bytes(rng, base):
     k = rng.randint(0, 7)
@@ -1274,6 +1297,8 @@ def build_search_cases(ctx, rng, workdir, scale):
         cases.append(Case("g%d" % i, "generated-fault", p, "str", None, {"faults": names}))
     for nm, d in enum_init_cases(rng, int(600 * scale)):
         cases.append(Case("E." + nm, "enum-initialisers", d))
+    for nm, d in const_division_cases():
+        cases.append(Case("CD." + nm, "constant-division", d))
     # (3b) grammar-driven syntax errors: every rule of parser.y x every position x illegal token
     try:
         gcases, ginfo = grammar_error_cases(common.REPO)
